@@ -16,6 +16,9 @@ def check_loop(script):
 
 
 def replay(ctx, data):
+    if data.get("kind") == "exact_tree":
+        from props import c07
+        return c07.exact_args(data["files"], data["main"], data["inlined"])
     if data.get("kind") == "loop":
         return check_loop(data["script"])[0]
     return oracles.generic_replay(data)
@@ -108,5 +111,13 @@ def run(ctx):
         if msg:
             ctx.violation("loop vs unrolling: " + msg, {"kind": "loads_equal", "a": loop, "b": unrolled, "check_vars": False})
     common.loads_corr(ctx, big, "LOADS(big loop values)")
+    # a call of an included program (plain and template) inside a loop body is expanded like anywhere else
+    from props import c07
+    for k in range(ctx.n(4, 40)):
+        msg, rep = c07.special_tree(ctx.rng, 0)
+        ctx.count("include-call-in-loop-body")
+        ctx.case(("loopcall", k, repr(rep["files"])), nontrivial=True)
+        if msg:
+            ctx.violation("loop vs unrolling (include call in the body): " + msg, rep)
     # interaction stream (harness/interact.py): the executable model is the oracle
     common.interaction_stream(ctx, ctx.n(200, 2500))
